@@ -155,6 +155,18 @@ func NewExec(cfg M) (*Exec, error) {
 	if t := S(cfg, "term"); t != "" && t != "none" {
 		opts = append(opts, wire.TerminateConn(x.terminate))
 	}
+	// the close hook is always registered: it must stay silent for a CancelRequest (C12); for other
+	// connections a call is not judged (the projection drops it)
+	opts = append(opts, wire.CloseConn(func(ctx context.Context) error {
+		x.cb(ctx, M{"name": "closeconn"})
+		return nil
+	}))
+	if I(cfg, "_ext") == 1 {
+		// a registered type extension: every connection still gets a type map of its own
+		opts = append(opts, wire.ExtendTypes(func(m *pgtype.Map) {
+			m.RegisterType(&pgtype.Type{Name: "verif_ext", OID: 99001, Codec: pgtype.TextCodec{}})
+		}))
+	}
 	emptyViaField := false
 	switch S(cfg, "tls") {
 	case "empty":
